@@ -195,7 +195,7 @@ def fam_C02(rng, tier):
                      ns=[1024, 2 ** 40, 2 ** 48, 2 ** 50], kinds=['u8', 'u64', 'u256', 'h256', 'var'],
                      final_roots=True)
     cs += root_paths(rng, tier)
-    return (cs) + huge_repeat(rng, tier)
+    return ((cs) + huge_repeat(rng, tier)) + tree_direct(rng, tier)
 
 
 def root_paths(rng, tier):
@@ -278,7 +278,7 @@ def fam_C03(rng, tier):
             out.append(Case(variant + tail, 'roots-inserted', ('memo', 'pair_equal'),
                             {'cfg': cfg, 'pair': 'b', 'common': common}))
     out += readers_vs_hasher(rng, tier)
-    return out
+    return (out) + tree_direct(rng, tier)
 
 
 def fam_C04(rng, tier):
@@ -704,6 +704,30 @@ def fam_C08(rng, tier):
             lines += ['dump 0 1', 'rebase 0 1', 'dump 0 1', 'tovec 0', 'tovec 1']
             out.append(Case(lines, 'rebase-sharing-' + motif, ('sharing',),
                             {'cfg': cfg, 'motif': motif, 'equal': xs == ys}))
+    # equal (or nearly equal) independent trees where one side has un-applied writes at rebase time:
+    # the backing trees decide what is shared, pending writes do not
+    for cfg in pick_configs(rng, scale(tier, 60, 300)):
+        kind, N, m = cfg
+        r = sub(rng)
+        maxl = min(N, 40)
+        ln = r.randint(0, max(0, maxl - 1))
+        xs = [val(r, kind, pzero=0.4) for _ in range(ln)]
+        ys = list(xs)
+        if ln and r.random() < 0.4:
+            ys[r.randrange(ln)] = val(r, kind, pzero=0.0)
+        lines = [cfg_line(cfg), 'new 1 list ' + ' '.join(ys), 'new 0 list ' + ' '.join(xs)]
+        for h in (0, 1):
+            if r.random() < 0.5:
+                lines.append('root %d' % h)
+        who = r.choice([0, 1, 1])
+        for _ in range(r.randint(1, 2)):
+            if r.random() < 0.6 and ln < N:
+                lines.append('push %d %s' % (who, val(r, kind)))
+            elif ln:
+                lines.append('getmut %d %d %s' % (who, r.randrange(ln), val(r, kind)))
+        lines += ['dump 0 1', 'rebase 0 1', 'dump 0 1', 'tovec 0', 'tovec 1', 'apply 0', 'apply 1', 'tovec 0', 'tovec 1',
+                  'root 0', 'root 1']
+        out.append(Case(lines, 'rebase-sharing-pending-writes', ('sharing',), {'cfg': cfg, 'motif': 'pending', 'equal': xs == ys}))
     # the rebased collection has internal sharing (built by repetition, or de-duplicated): sibling
     # subtrees are one node; the base is independent and differs in a few places
     for cfg in pick_configs(rng, scale(tier, 60, 300)):
@@ -958,6 +982,26 @@ def fam_C10(rng, tier):
         lines += ['tovector 0 3', 'dump 1 3']
         out.append(Case(lines, 'path-copying-conversion', ('flush_bound',), {'cfg': cfg, 'k': len(keys), 'len': N,
                                                                              'dump_line': 'dump 1 3'}))
+    # ... and when the list reaches N only through pushes that are still pending
+    for cfg in pick_configs(rng, scale(tier, 30, 150), ns=[4, 5, 7, 8, 9, 16, 17, 32, 33]):
+        kind, N, m = cfg
+        r = sub(rng)
+        j = r.randint(1, min(3, N))
+        xs = [val(r, kind) for _ in range(N - j)]
+        lines = [cfg_line(cfg), 'new 0 list ' + ' '.join(xs)]
+        if r.random() < 0.7:
+            lines.append('root 0')
+        lines.append('clone 0 1')
+        for _ in range(j):
+            lines.append('push 0 %s' % val(r, kind))
+        keys = set(range(N - j, N))
+        if xs and r.random() < 0.5:
+            i = aim_index(r, len(xs), PF[kind])
+            keys.add(i)
+            lines.append('getmut 0 %d %s' % (i, val(r, kind)))
+        lines += ['tovector 0 3', 'dump 1 3', 'tovec 3', 'root 3']
+        out.append(Case(lines, 'path-copying-conversion-pushes', ('flush_bound',), {'cfg': cfg, 'k': len(keys), 'len': N,
+                                                                                    'dump_line': 'dump 1 3'}))
     out += readers_vs_hasher(rng, tier)
     return (out) + huge_repeat(rng, tier)
 
@@ -1414,6 +1458,43 @@ def unit_elements(rng, tier):
     return out
 
 
+def tree_direct(rng, tier):
+    """`Tree::with_updated_leaf` and `Tree::tree_hash` used directly, interleaved: appends into a
+    partially filled (packed) leaf that has already been hashed, overwrites of hashed leaves, then
+    the hash again and the memo fields (no memo may survive a change of the subtree it labels)."""
+    out = []
+    for kind in KINDS:
+        pf = PF[kind] or 1
+        r = sub(rng)
+        lines = [cfg_line((kind, 8, 'btree'))]
+        for depth in (0, 1, 2, 3):
+            cap = (1 << depth) * pf
+            for _ in range(scale(tier, 1, 3)):
+                k = r.randint(0, cap - 1) if cap > 1 else 0
+                xs = [val(r, kind, pzero=0.3) for _ in range(k)]
+                lines.append('bnew 0 %d 0' % depth)
+                lines += ['bpush 0 %s' % x for x in xs]
+                lines += ['bfinish 0 1']
+                cur = 1
+                n = k
+                for step in range(r.randint(2, 6)):
+                    if r.random() < 0.6:
+                        lines.append('thash %d' % cur)
+                    c = r.randrange(3)
+                    if c == 0 and n < cap:
+                        i = n; n += 1                      # append at the end of the filled part
+                    elif n:
+                        i = r.randrange(n)                 # overwrite
+                    else:
+                        i = 0; n = max(n, 1)
+                    lines.append('tupd %d %d %s %d %d' % (cur, i, val(r, kind, pzero=0.2), depth, cur + 1))
+                    cur += 1
+                    lines += ['tlen %d' % cur, 'tget %d %d %d' % (cur, i, depth), 'tdump %d' % cur, 'thash %d' % cur,
+                              'tdump %d' % cur]
+        out.append(Case(lines, 'tree-direct-update-hash', ('memo',), {'cfg': (kind, 8, 'btree')}))
+    return out
+
+
 def huge_repeat(rng, tier):
     """collections far too long to materialise (2^23 .. 2^63 equal elements; a DAG of a few dozen
     nodes in the implementation and in the model, `n` copies of `v` symbolically on the spec side):
@@ -1655,7 +1736,7 @@ def fam_C17(rng, tier):
                     lines += ['bnew 3 %d %d' % (depth, L)]
                     for _ in range(cnt):
                         lines.append('bpushnode 3 %d %d' % (slot, 2 ** L))
-                    lines.append('bpushnode 3 %d %d' % (slot, 2 ** L))      # one too many: BuilderFull
+                    lines.append(r.choice(['bpushnode 3 %d %d' % (slot, 2 ** L), 'bpushnode 3 %d 0' % slot]))   # one too many: BuilderFull, whatever its length
                 lines += ['bfinish 2 %d' % (slot + 1), 'tlen %d' % (slot + 1), 'thash %d' % (slot + 1),
                           'tget %d %d %d' % (slot + 1, fill * 2 ** L - 1, depth), 'tget %d %d %d' % (slot + 1, fill * 2 ** L, depth)]
                 slot += 2
